@@ -56,7 +56,7 @@ def make_case(rng, i, tier):
     pieces = []
     if not irregular:
         for _ in range(4):
-            pieces.append(tc.valid_piece(rng, cfg, stratum="A", nseg=(1, 2), nbars=(1, 2), max_notes=5))
+            pieces.append(tc.valid_piece(rng, cfg, stratum="A" if _ < 3 else "B", nseg=(1, 2), nbars=(1, 2), max_notes=5))
     return {"cfg": cfg, "pieces": pieces, "stratum": "V" if irregular else "R", "sibling": None if irregular else sib, "sibling_differs_in": which}
 
 
